@@ -887,9 +887,11 @@ def _proved(ctx, formula, timeout_ms=3000):
     return sol.check() == z3.unsat
 
 
-def tier2_axioms(ctx, t, calls1, calls2):
+def tier2_axioms(ctx, t, calls1, calls2, factor_of=None):
     """C07: add, for every opaque-kernel call of the two runs, the ground instances out_B == k**e * out_A of the oracle
-    table's homogeneity, after checking that the kernel's arguments in run B are exactly the declared factors times run A's"""
+    table's homogeneity, after checking that the kernel's arguments in run B are exactly the declared factors times run A's.
+    factor_of(group) -> SymReal | None: the re-expression factor of a unit group where it is not the plain symbol k_<group>
+    (C07 family `uform`: compound units)"""
     import z3
     from symx.kernels import _flat_terms
     if len(calls1) != len(calls2):
@@ -907,6 +909,8 @@ def tier2_axioms(ctx, t, calls1, calls2):
             g = t.kargs.get(argkey)
             if g in (None, "bare", "1"):
                 return None
+            if factor_of is not None:
+                return factor_of(g)
             return ctx.real("k_" + KGROUP.get(g, g), pos=True)
 
         # argument relation
